@@ -23,7 +23,8 @@ pub fn profile_many_deps() -> Profile {
     p.export_to = 60;
     p.shared_files = 55;
     p.no_parent_escape = true;
-    p.doc_merge_safe = true;
+    p.doc_merge_safe = false;
+    p.blank_block_lines = true;
     p.docs = 10;
     p.inline = 15;
     p.flatten = 12;
